@@ -1,11 +1,53 @@
-TECHNIQUE = "bounded symbolic execution of the real Python source (own engine sx: proxies + import hook), z3 decides branches and per-path VCs, concrete replay of models"
+TECHNIQUE = "bounded symbolic execution of the real Python source (own engine sx: proxy values + AST import hook), z3 decides every branch and every per-path verification condition, concrete replay of solver models on the un-instrumented code"
 SOURCE_COMMITS = []
-NOTES = "All checks go through ./check <ID>; exit 0 held / 1 VIOLATION / 3 harness error. Known findings in known_findings.json. See DESIGN.md."
+NOTES = ("All checks go through ./check <ID> --tier quick|thorough; exit 0 held (KNOWN-FINDING lines for listed findings) / 1 with VIOLATION line / 3 harness error "
+         "(non-reproducing model, engine self-test failure, inconclusive share above floor). Known and fixed findings: known_findings.json. Seeded changes used to test the checks: seeded/. See DESIGN.md.")
 NOT_APPLICABLE = {}
+_T = "trusts z3, CPython and the sx proxies (differentially self-tested against CPython at the start of every run); "
 CLAIMS = {
+    "C03": {
+        "text": "Bounded: K03 runs the real rule_list.fix / rule.fix on 1-2 (3) stub rules whose phase, sub-phase, disable, fixable, severity type and violation count are symbolic, with symbolic --fix_phase and skip_phase; z3 proves per path that _fix_violation runs exactly for enabled, fixable, error-severity rules of phases 1..N and that nothing else reaches the file. Rule bodies (what a fix does to tokens) are outside this check.",
+        "design_ref": "DESIGN.md section 4, C03 (K03)",
+        "note": _T + "rules are StubRule subclasses of the real vsg.rule.Rule; the effect classification of real rule bodies (KB03/L03) is not built yet",
+    },
     "C04": {
-        "text": "Bounded: for every string of <=2 (quick) / <=3 (thorough) characters over U+0000..U+00FF the real tokens.create regroups characters losslessly; z3 decides each branch of the nine tokenizer passes. Larger inputs are outside the claim.",
-        "design_ref": "DESIGN.md section 4, C04",
-        "note": "trusts z3, CPython, and the sx proxies (differentially self-tested against CPython on every run); lines contain no CR/LF",
+        "text": "Bounded: K04a proves ''.join(tokens.create(s)) == s for every string of <=2 (quick) / <=3 (thorough) characters over U+0000..U+00FF through the nine real tokenizer passes; K16 proves on a model file system that apply_rules mutates nothing without --fix and never touches the target when no rule fixed anything.",
+        "design_ref": "DESIGN.md section 4, C04 (K04a, K04e=K16)",
+        "note": _T + "lines contain no CR/LF; file system is a model; parse/emit of whole files (L04) not built yet",
+    },
+    "C06": {
+        "text": "Bounded: K06 runs the real rule_list.check_rules twice (clear_violations in between) on 2-3 stub rules with symbolic metadata and symbolic violation lines; z3 proves repeatability, that the token list and file are untouched, and that a rule's report depends only on its own inputs (disabling removes exactly its violations).",
+        "design_ref": "DESIGN.md section 4, C06 (K06)",
+        "note": _T + "state shared between real rule bodies (L06) not covered",
+    },
+    "C11": {
+        "text": "Bounded: K11a drives the real set_code_tags/code_tags/has_code_tag/add_violation state machine over every sequence of <=4 (5) lines from {code, vsg_off, vsg_on, vsg_disable_next_line, comment, blank} with symbolic rule ids and compares, by z3, with a reference interpreter of docs/code_tags.rst; K11b does the same for the tag text (every tail of <=3 (4) characters over a 7-symbol alphabet).",
+        "design_ref": "DESIGN.md section 4, C11 (K11a, K11b)",
+        "note": _T + "token list built directly from parser.* objects; an id-carrying vsg_on under an active bare vsg_off is unspecified by the documentation and skipped",
+    },
+    "C12": {
+        "text": "Bounded: K12a configures real rules through the real apply_rules.configure_rules / rule_list.configure / rule.configure with one attribute present or absent (symbolic) at each of the five levels with symbolic values and proves the effective value is the one of the most specific level; K12b proves later-file-wins merging; K12d proves unknown or deprecated rule names (every string <=6 chars over an 8-symbol alphabet) are configuration errors at top level and in per-file sections.",
+        "design_ref": "DESIGN.md section 4, C12 (K12a, K12b, K12d)",
+        "note": _T + "YAML/JSON parsing, glob and $VAR expansion are outside; dictionaries are built directly",
+    },
+    "C13": {
+        "text": "Bounded: K13a proves for 1-2 (3) stub rules with fully symbolic phase/sub-phase/disable/severity/violations, symbolic --all_phases and skipped phases, that check_rules analyses exactly the enabled rules of non-skipped phases up to the first failing phase; K13b proves the call order of rule_list.fix; K14b proves through apply_rules + main that the report after --fix is the gated report.",
+        "design_ref": "DESIGN.md section 4, C13 (K13a, K13b, K14b)",
+        "note": _T + "stub rules; at most 3 rules",
+    },
+    "C14": {
+        "text": "Bounded: K14a renders the six output formats with the real report code for 1-2 (3) rules x 0..2 violations on symbolic lines x 4 severities (two user-defined), parses them back and proves with z3 that all are consistent projections of one violation set and that printed counts equal listed entries; K14b proves exit status 0 iff no error-severity violation and no processing error over 1-2 (3) files.",
+        "design_ref": "DESIGN.md section 4, C14 (K14a, K14b)",
+        "note": _T + "solution text fixed; single-digit line numbers; md5 fingerprint stubbed; file writing captured in memory",
+    },
+    "C16": {
+        "text": "Bounded fault/crash enumeration decided symbolically: K16 runs the real apply_rules/write_vhdl_file/create_backup_file over a model file system with a symbolic fault position and kind and a symbolic crash point; z3 proves at every crash point and after every single fault that the target holds the complete original or complete fixed text with its original mode, that the temp file is gone after non-fatal failures, that the backup is faithful and that rejected files are untouched.",
+        "design_ref": "DESIGN.md section 4, C16 (K16)",
+        "note": _T + "os.replace atomic; a failing call affects only its own file; umask arbitrary; single fault per run",
+    },
+    "C20": {
+        "text": "Bounded: K20a proves for one rule with 0..2 (3) violations on symbolic lines and every shape of the selection document that rule.fix repairs exactly the listed lines (all for 'all'), in file order; K20b proves all-rules-all == plain fix, empty selection fixes nothing, and a one-rule selection leaves the other rule untouched.",
+        "design_ref": "DESIGN.md section 4, C20 (K20a, K20b)",
+        "note": _T + "stub rules; the line-locality of real rule fixes (L20) not covered",
     },
 }
